@@ -77,6 +77,13 @@ def main():
     finally:
         sh("git -C /repo worktree remove --force %s" % wt); shutil.rmtree(wt, ignore_errors=True); shutil.rmtree(hd, ignore_errors=True)
         sh("git -C /repo worktree prune")
+    prev = meta.get("evaluation")
+    if skip and prev:
+        # a re-run of the checks after they were strengthened: keep the confirmation and the history of earlier rounds
+        for k in ("demo_without_patch", "demo_with_patch", "existing_tests_with_patch", "confirmed"):
+            if k in prev and k not in log:
+                log[k] = prev[k]
+        log["earlier_rounds"] = (prev.get("earlier_rounds") or []) + [{"time": prev.get("time"), "checks": {p: v.get("rc") for p, v in (prev.get("checks") or {}).items()}, "detected_by": prev.get("detected_by")}]
     meta["evaluation"] = log
     json.dump(meta, open(os.path.join(out, "meta.json"), "w"), indent=1)
     print(json.dumps({k: log.get(k) for k in ("confirmed", "detected_by")}), json.dumps({p: (v["rc"], v["wall_s"]) for p, v in log.get("checks", {}).items()}))
